@@ -18,6 +18,9 @@ type JApiCore struct {
 	// processedUserTypes a "set" of already build user types.
 	processedUserTypes map[string]struct{}
 
+	// assembledUserTypes a "set" of user types which got all their dependencies.
+	assembledUserTypes map[string]struct{}
+
 	// userTypes represent all user types.
 	userTypes *catalog.UserSchemas
 
@@ -103,6 +106,7 @@ func NewJApiCore(file *fs.File, oo ...Option) *JApiCore {
 		rawUserTypes:           &directive.Directives{},
 		userTypes:              &catalog.UserSchemas{},
 		processedUserTypes:     make(map[string]struct{}, 30),
+		assembledUserTypes:     make(map[string]struct{}, 30),
 		scanner:                scanner.NewJApiScanner(file),
 		catalog:                catalog.NewCatalog(),
 		currentDirective:       nil,
